@@ -223,15 +223,18 @@ def orphaSection (fv : Nat) (bs : Bytes) : Res (List Rec × Bytes) :=
 def finish (f : RawFacts) (rest : Bytes) : Res RawFacts :=
   if rest.isEmpty then .ok f else .err .parseBinary
 
-/-- bytes (after `version`) → decoded records -/
-def decodeRaw (fv : Nat) (d : Bytes) : Res RawFacts :=
-  (hpoVersion fv d).bind fun hv =>
-  (takeSection hv.2).bind fun s1 => (decodeTerms fv s1.1).bind fun ts =>
+/-- the section walk of `from_bytes` (after the release version) -/
+def decodeSections (fv : Nat) (ver : Nat × Nat × Nat) (d : Bytes) : Res RawFacts :=
+  (takeSection d).bind fun s1 => (decodeTerms fv s1.1).bind fun ts =>
   (takeSection s1.2).bind fun s2 => (decodeParents s2.1).bind fun ps =>
   (takeSection s2.2).bind fun s3 => (decodeRecs decGene s3.1).bind fun gs =>
   (takeSection s3.2).bind fun s4 => (decodeRecs decDisease s4.1).bind fun os =>
   (orphaSection fv s4.2).bind fun s5 =>
-  finish { version := hv.1, terms := ts, parents := ps, genes := gs, omim := os, orpha := s5.1 } s5.2
+  finish { version := ver, terms := ts, parents := ps, genes := gs, omim := os, orpha := s5.1 } s5.2
+
+/-- bytes (after `version`) → decoded records -/
+def decodeRaw (fv : Nat) (d : Bytes) : Res RawFacts :=
+  (hpoVersion fv d).bind fun hv => decodeSections fv hv.1 hv.2
 
 /-- `Ontology::from_bytes` -/
 def decodeBytes (bs : Bytes) : Res Onto :=
